@@ -29,6 +29,9 @@ class World:
         # the real manager: both behaviours occur)
         self.lag = lag
         self.in_sleep = False
+        # slow_exit: a terminated worker needs this many seconds before it is gone (a worker finishing its
+        # tasks); join() without timeout waits for it, join(timeout=t) returns early while it is still alive
+        self.slow_exit: float = 0.0
         self.tick = 0  # number of sleep() calls so far
         self.trace: List[Tuple[Any, ...]] = []
         self.procs: List["FakeProcess"] = []
@@ -68,9 +71,9 @@ class World:
                 p.state = "dead"
                 self.deaths.append((self.tick, p))
                 self.rec("died", p.name, p.pid)
-        if sig is not None:
-            signum = {"HUP": real_signal.SIGHUP, "INT": real_signal.SIGINT, "TERM": real_signal.SIGTERM}[sig]
-            self.rec("signal", sig)
+        for one in (sig.split(",") if sig else []):
+            signum = {"HUP": real_signal.SIGHUP, "INT": real_signal.SIGINT, "TERM": real_signal.SIGTERM}[one]
+            self.rec("signal", one)
             h = self.handlers.get(signum)
             if h is not None:
                 h(signum, None)
@@ -106,8 +109,14 @@ class FakeProcess:
     def join(self, timeout: Any = None) -> None:
         w = self.world
         if self.state == "alive":
+            if timeout is not None:
+                w.rec("join_timeout", self.name, self.pid)
+                return
             w.rec("join_blocks", self.name, self.pid)
             raise WouldBlockForever(self.name)
+        if self.state == "terminating" and timeout is not None and w.slow_exit > timeout:
+            w.rec("join_timeout", self.name, self.pid)  # still alive when join() gives up
+            return
         w.rec("join", self.name, self.pid)
         if self.state in ("terminating", "dead"):
             self.state = "dead"
@@ -192,9 +201,10 @@ class _CurProc:
     name = "MainProcess"
 
 
-def run_history(workers: int, max_fails: int, history: List[Any], lag: bool = False) -> Dict[str, Any]:
+def run_history(workers: int, max_fails: int, history: List[Any], lag: bool = False, slow_exit: float = 0.0) -> Dict[str, Any]:
     """Run the real ProcessManager.__init__/start() against one history in the fake world."""
     world = World(history, lag)
+    world.slow_exit = slow_exit
     FakeProcess.world = world
     FakeQueue.world = world
     saved = {k: getattr(pm, k) for k in ("Process", "Queue", "Event", "sleep", "os", "signal", "current_process")}
@@ -336,7 +346,9 @@ def oracle_c18(out: Dict[str, Any], workers: int, max_fails: int, history: List[
     for t, (die, sig, fchange) in enumerate(history, start=1):
         if t > out["ticks"]:
             break
-        if not (sig == "HUP" or fchange):
+        if not ((sig and "HUP" in sig) or fchange):
+            continue
+        if _is_shutdown(sig):
             continue
         if ret_tick is not None and ret_tick <= t + 1:
             continue
@@ -350,7 +362,7 @@ def oracle_c18(out: Dict[str, Any], workers: int, max_fails: int, history: List[
     # shutdown
     sd_tick = None
     for t, (die, sig, fchange) in enumerate(history, start=1):
-        if sig in ("INT", "TERM") and t <= out["ticks"]:
+        if _is_shutdown(sig) and t <= out["ticks"]:
             sd_tick = t
             break
     if sd_tick is not None and (ret_tick is None or ret_tick >= sd_tick) and not out["crash"]:
@@ -395,8 +407,12 @@ def _tick_played_fully(out: Dict[str, Any], t: int) -> bool:
     return out["ticks"] > t or out["returned"] or out["ticks"] == t
 
 
+def _is_shutdown(sig: Any) -> bool:
+    return bool(sig) and ("INT" in sig or "TERM" in sig)
+
+
 def _shutdown_in_tick(history: List[Any], t: int) -> bool:
-    return 1 <= t <= len(history) and history[t - 1][1] in ("INT", "TERM")
+    return 1 <= t <= len(history) and _is_shutdown(history[t - 1][1])
 
 
 # ------------------------------------------------------------------------------------
@@ -407,7 +423,9 @@ def alphabet(workers: int) -> List[Any]:
     subs = []
     for r in range(workers + 1):
         subs += list(itertools.combinations(range(workers), r))
-    opts = [(None, False), ("HUP", False), ("INT", False), ("TERM", False), (None, True), ("HUP", True)]
+    # several signals within one tick (delivered in that order during the same sleep)
+    opts = [(None, False), ("HUP", False), ("INT", False), ("TERM", False), (None, True), ("HUP", True),
+            ("INT,INT", False), ("TERM,HUP", False), ("HUP,INT", False)]
     return [(d, s, f) for d in subs for s, f in opts]
 
 
@@ -450,8 +468,8 @@ class ProcCheck(Check):
     thorough_random = 60000
     quick_cases = 10 ** 9
     thorough_cases = 10 ** 9
-    quick_time = 40.0
-    thorough_time = 600.0
+    quick_time = 90.0
+    thorough_time = 900.0
     which = "C17"
 
     def cases(self, rng: random.Random, tier: str, shard: int, nshards: int) -> Iterator[Any]:
@@ -464,8 +482,8 @@ class ProcCheck(Check):
                         batches.append({"mode": "enum", "workers": w, "depth": depth, "first": fi, "max_fails": mf, "lag": lag})
         nrand = self.quick_random if tier == "quick" else self.thorough_random
         salt = rng.randint(0, 10 ** 6)
-        for i in range(nrand // 50):
-            batches.append({"mode": "random", "seed": salt * 100003 + i, "n": 50})
+        rnd = [{"mode": "random", "seed": salt * 100003 + i, "n": 50} for i in range(nrand // 50)]
+        batches = rnd + batches  # cheap random histories first: a time-capped shard still covers them
         # deterministic partition of the batches over shards
         for i, b in enumerate(batches):
             if i % nshards == shard:
@@ -484,7 +502,7 @@ class ProcCheck(Check):
             try:
                 hist = next(gen)
                 while True:
-                    out = run_history(w, mf, hist, spec.get("lag", False))
+                    out = run_history(w, mf, hist, spec.get("lag", False), 8.0 if spec.get("lag") else 0.0)
                     self._account(cr, out, w, mf, hist)
                     cut = None
                     if out["returned"] or out["crash"]:
@@ -500,7 +518,7 @@ class ProcCheck(Check):
                 mf = rng.choice(MAX_FAILS)
                 L = rng.randint(50, 300)
                 alpha = alphabet(w)
-                quiet = [a for a in alpha if a[1] not in ("INT", "TERM")]
+                quiet = [a for a in alpha if not _is_shutdown(a[1])]
                 hist = []
                 for _t in range(L):
                     r = rng.random()
@@ -511,7 +529,7 @@ class ProcCheck(Check):
                     else:
                         hist.append(rng.choice(alpha))
                 lag = rng.random() < 0.5
-                out = run_history(w, mf, hist, lag)
+                out = run_history(w, mf, hist, lag, rng.choice([0.0, 0.0, 3.0, 8.0, 30.0]))
                 self._account(cr, out, w, mf, hist)
                 cr.counters["random_histories"] += 1
                 cr.counters["lagged_queue_histories"] += 1 if lag else 0
@@ -734,7 +752,7 @@ def real_cross_check(n: int, seed: int) -> Dict[str, int]:
         mf = rng.choice(MAX_FAILS)
         L = rng.randint(5, 9)
         alpha = alphabet(w)
-        quiet = [a for a in alpha if a[1] not in ("INT", "TERM")]
+        quiet = [a for a in alpha if not _is_shutdown(a[1])]
         hist = [rng.choice(quiet) if rng.random() < 0.6 else ((), None, False) for _ in range(L)]
         if rng.random() < 0.6:
             hist.append(((), rng.choice(["INT", "TERM"]), False))
